@@ -488,7 +488,8 @@ def main():
     # seed: permutes the scheduling order only
     import random
     rnd = random.Random(seed)
-    order = list(harnesses)
+    # longest-cap first: the slow harnesses start in the first wave (registry order within equal caps)
+    order = sorted(harnesses, key=lambda h: -(h.get('expect_s') or h['timeout']))
     rnd.shuffle(order)
     order.sort(key=lambda h: -h.get('cost', h['timeout']))   # longest first, ties in seeded order
 
